@@ -76,3 +76,32 @@ add(Contract(
     raises={'TypeError': ["not (isbytes(old(slot(instance, self.length_of))) or islist(old(slot(instance, self.length_of))))"],
             'AttributeError': ["not old(hasslot(instance, self.length_of))"]},
     modifies=[], returns='int'))
+
+# ---------------------------------------------------------------- which sync hooks a class runs (C17, C02)
+# PacketClassBuilder.collect_sync_methods_from_field_descriptors: for every described field of the table, IN TABLE ORDER,
+# the sync_before_pack / sync_after_unpack method OF THAT FIELD'S OWN DESCRIPTOR (when it has one) - nothing else.
+# g_nb / g_na: ghost, how many hooks of each kind the first `it` fields contributed.
+define('TBL(self, i)', "asref(tupitem(self.fields[i], 2, 1), 'Field')")
+define('described(self, i)', "not isnone(TBL(self, i).descriptor)")
+define('hooked(self, i, name)', "described(self, i) and has_method(TBL(self, i).descriptor, name)")
+_hooks = lambda lst, name, upto: [
+    "len(self.%s) == hookcount(self, '%s', %s)" % (lst, name, upto),
+    "forall(0, %s, lambda i: implies(hooked(self, i, '%s'),"
+    "       same(self.%s[hookcount(self, '%s', i)], bound_method(TBL(self, i).descriptor, '%s'))))" % (upto, name, lst, name, name)]
+add(Contract(
+    'packet_builder:PacketClassBuilder.collect_sync_methods_from_field_descriptors',
+    params={'self': 'ref:PacketClassBuilder'},
+    requires=["allocated(self.fields)", "len(self.fields) >= 0",
+              "forall(0, len(self.fields), lambda i: istuple(self.fields[i], 2) and isinst(tupitem(self.fields[i], 2, 1), 'Field')"
+              "       and (isnone(TBL(self, i).descriptor) or isobject(TBL(self, i).descriptor)))"],
+    ensures=["fresh_since(self.sync_before_pack_methods) and fresh_since(self.sync_after_unpack_methods)"]
+            + _hooks('sync_before_pack_methods', 'sync_before_pack', 'len(self.fields)')
+            + _hooks('sync_after_unpack_methods', 'sync_after_unpack', 'len(self.fields)'),
+    loops={0: LoopSpec(["0 <= it and it <= len(self.fields)",
+                        "fresh_since(self.sync_before_pack_methods) and fresh_since(self.sync_after_unpack_methods)",
+                        "not same(self.sync_before_pack_methods, self.sync_after_unpack_methods)",
+                        "not same(self.sync_before_pack_methods, self.fields) and not same(self.sync_after_unpack_methods, self.fields)"]
+                       + _hooks('sync_before_pack_methods', 'sync_before_pack', 'it')
+                       + _hooks('sync_after_unpack_methods', 'sync_after_unpack', 'it'),
+                       kinds={'name': 'dyn', 'field': 'dyn'})},
+    modifies=['self.sync_before_pack_methods', 'self.sync_after_unpack_methods'], allocates=True))
